@@ -44,7 +44,7 @@ def specHandlers : List Handler → Req → Trace → Res
 def specHandler : Handler → Req → Trace → Res
   | .pass id, r, t => .cont r (t ++ [ev id r])
   | .respond id st, r, t => .stop (.done (t ++ [ev id r]) (some st))
-  | .rewrite id p, r, t => .cont { r with path := p } (t ++ [ev id r])
+  | .rewrite id p, r, t => .cont { r with path := p, uri := p } (t ++ [ev id r])
   | .fail id st, r, t => .stop (.err (t ++ [ev id r]) st r)
   | .raise src, r, t => .stop (.err t (raiseStatus src r) r)
   | .invoke _, r, t => .stop (.err t 0 r)
@@ -61,7 +61,7 @@ def specHandler : Handler → Req → Trace → Res
     | .stop (.done t' s) => .stop (.done t' s)
     | .stop (.reached r' t') => .cont r' t'     -- never produced by the rules (`specRoutes_no_marker`)
     | .stop (.err t' st r') =>
-      if hasErrs then specRoutes errs (withError st r') t'
+      if hasErrs then specRoutes errs (catchAt r st r') t'
       else .stop (.err t' st r')
 def specRoutes : List Route → Req → Trace → Res
   | [], r, t => .cont r t
@@ -90,7 +90,7 @@ def eval (routes : List Route) (hasErrs : Bool) (errs : List Route) (req : Req) 
   | .stop (.reached _ t) => ⟨t, none⟩
   | .stop (.err t st r') =>
     if hasErrs && !errs.isEmpty then
-      match specRoutes errs (withError st { r' with path := req.path }) t with
+      match specRoutes errs (serverCatch req st r') t with
       | .cont r'' t2 => ⟨t2, some (writeStatus r''.ctxErr)⟩   -- error routes did not answer: error status
       | .stop (.done t2 s2) => ⟨t2, s2⟩
       | .stop (.reached _ t2) => ⟨t2, none⟩
